@@ -52,19 +52,20 @@ SPEC = dict(
     nontrivial=nontrivial,
     histogram=histogram,
     rule="DNA motifs of every width 0..20 (0..40 thorough; the width cycles with the case number) built from "
-         "sequences (CountMatrix::from_sequences) or from arbitrary count data (CountMatrix::new, wildcard "
-         "column included), scalar / per-symbol pseudocounts (2/3 strand-symmetric), backgrounds None / "
-         "strand-symmetric / arbitrary dyadic (zero entries included), plus an arbitrary ScoringMatrix::new "
-         "matrix (finite, -inf, NaN, +-0, huge cells) and a DNA sequence (length 0..66, wildcards included). "
-         "Observed: reverse_complement once and twice of the count, frequency, weight and scoring matrix, "
-         "the conversions applied before and after reverse-complementing, score_position of the matrix on the "
-         "sequence and of the reverse-complemented matrix on the reverse-complemented sequence at every position. "
-         "PROPFAIL: extracted checkers (rc = row reversal + complement permutation from the translated table, "
-         "rc twice = identity bit for bit, commutation within 1e-6 relative (weights/frequencies) or 1e-5 "
-         "(scores) when background and pseudocounts are strand-symmetric, exact commutation with to_scoring, "
-         "mirrored scores within M*2^-23*sum|terms|). DIFF: bit-exact comparison with the extracted binary32 "
-         "model. Non-trivial: distinct (matrix source, scoring matrix, sequence, background, pseudocounts) of "
-         "width >= 2 with at least one window.",
+         "sequences (CountMatrix::from_sequences; for width 0 also from an empty collection) or from arbitrary count data "
+         "(CountMatrix::new, wildcard column included), scalar / per-symbol pseudocounts (2/3 strand-symmetric), backgrounds "
+         "None / strand-symmetric / arbitrary dyadic = strand-asymmetric (zero entries included), plus an arbitrary "
+         "ScoringMatrix::new matrix (finite, -inf, NaN, +-0, huge cells) carrying the case's background and a DNA sequence "
+         "(length 0..66, wildcards included). corpus/C10: zero-row matrices three ways, asymmetric backgrounds with odd / "
+         "even widths. Observed: reverse_complement once and twice of the count, frequency, weight and scoring matrix (data, "
+         "sequence count and background), the conversions applied before and after reverse-complementing, score_position of "
+         "the matrix on the sequence and of the reverse-complemented matrix on the reverse-complemented sequence at every "
+         "position. PROPFAIL: extracted checkers (rc = row reversal + complement permutation from the translated table, rc "
+         "twice = identity bit for bit incl. sequence count and background, commutation within 1e-6 relative "
+         "(weights/frequencies) or 1e-5 (scores) when background and pseudocounts are strand-symmetric, exact commutation "
+         "with to_scoring, mirrored scores within M*2^-23*sum|terms|). DIFF: bit-exact comparison with the extracted "
+         "binary32 model (incl. the background after one rc). Non-trivial: distinct (matrix source, scoring matrix, "
+         "sequence, background, pseudocounts) of width >= 2 with at least one window.",
     trusted_base=[
         "Coq 8.16.1 kernel (coqc); Flocq 4.1.0 (binary32 semantics); vm_compute only in finite sweeps / Example lemmas",
         "extraction: ExtrOcamlBasic only (nat, N, Z, positive, Q kept as extracted inductives); OCaml 4.13.1",
@@ -79,8 +80,10 @@ SPEC = dict(
     assumptions=[
         "rows of every matrix have exactly K = 5 cells and symbol indices are < 5 (guaranteed by the Rust types)",
         "exact-arithmetic theorems (revcomp_commutes_*, revcomp_mirrors_scores for sums) are over Qc / any commutative "
-        "monoid; in binary32 the row sum and the window sum are taken in a different order, so equality holds only up "
-        "to rounding (checked with the stated tolerances, and bit-exactly against the binary32 model)",
+        "monoid; in binary32 the row sum and the window sum are taken in a different order — stated for every carrier "
+        "by C10_revcomp_to_freq_reassociation and C10_revcomp_scores_sum_reversed — so equality holds only up to "
+        "rounding (checked with the stated tolerances, and bit-exactly against the binary32 model); the size of that "
+        "rounding difference is not proved",
         "flog2 (libm log2f) is a Section variable; commutation with to_scoring holds for any flog2",
         "the sequence is reverse-complemented outside the library (no such function exists in lightmotif)",
     ],
